@@ -1340,9 +1340,7 @@ class Store:
             for key, topology in insertion['topology'].items()]
         topology_updates.extend(topology_paths)
 
-        flow_paths = [
-            (root + (key,), flow)
-            for key, flow in insertion.get('flow', {}).items()]
+        flow_paths = dict_to_paths(root, insertion.get('flow') or {})
         flow_updates.extend(flow_paths)
 
         self._apply_subschema_path(path)
